@@ -79,6 +79,13 @@ fn main() {
     c!("MAX_ARTIFACT_FILE_BYTES", wormhole_aggregator::common::utils::MAX_ARTIFACT_FILE_BYTES);
     c!("MAX_VERIFIER_ARTIFACT_BYTES", wormhole_verifier::MAX_VERIFIER_ARTIFACT_BYTES);
     c!("DIGEST_LOGS_SIZE", wormhole_circuit::block_header::header::DIGEST_LOGS_SIZE);
+    // list-valued constants: NAME<TAB>[v1;v2;...]
+    {
+        use plonky2::field::types::PrimeField64;
+        let l = |name: &str, v: Vec<u64>| println!("{}\t[{}]", name, v.iter().map(|x| x.to_string()).collect::<Vec<_>>().join(";"));
+        l("NULLIFIER_SALT_FELTS", cm::utils::string_to_felts(wormhole_circuit::nullifier::NULLIFIER_SALT).unwrap().iter().map(|f| f.to_canonical_u64()).collect());
+        l("UNSPENDABLE_SALT_FELTS", cm::utils::string_to_felts(wormhole_circuit::unspendable_account::UNSPENDABLE_SALT).unwrap().iter().map(|f| f.to_canonical_u64()).collect());
+    }
     c!("FIELD_ORDER", <plonky2::field::goldilocks_field::GoldilocksField as plonky2::field::types::Field64>::ORDER);
     // encoding group (C25 / C26)
     c!("AMOUNT_QUANTIZATION_FACTOR", cm::serialization::AMOUNT_QUANTIZATION_FACTOR);
